@@ -410,7 +410,8 @@ def hash_on_accelerated_builds(ctx):
             c2.srcs = list(c.srcs) + ["alg/sha256_shani.c", "alg/sha256_sse2.c", "alg/crc32c_sse42.c", "util/warnp.c"] + \
                 ["cpusupport/cpusupport_x86_%s.c" % DETECT[f] for f in feats if f in DETECT]
             # a third of C01's cases, without the 2 MiB PBKDF2 outputs (those are about the block index, not the transform)
-            c2.gen = (lambda g: (lambda rng, tier, mult: [x for x in g(rng, tier, mult) if not x[0].startswith("pbkdf2sum")][::3]))(c.gen)
+            c2.gen = (lambda g: (lambda rng, tier, mult: [x for i, x in enumerate(y for y in g(rng, tier, mult) if not y[0].startswith("pbkdf2sum"))
+                                                         if i % 3 == 0 or x[0].startswith("big ")]))(c.gen)
             c2.rule = "every third of C01's `%s` cases on the %s build: %s" % (c.name, name, c.rule[:200])
             out.append(c2)
     return out
